@@ -19,9 +19,10 @@ MAL = "malformed"
 def extra_row(rng, case, spec):
     base = case["baseline"]
     district = case["office"] in ("H", "Y", "Z")
-    counties = sorted({b["county_fips"] for b in base})
-    dists = sorted({b["district"] for b in base if b.get("district")})
     st = case["states"][0] if spec["state"] == "known" else "ZZ"
+    # a "known" county / district is one of the unit's own state (a county id of another state would be a new group of this state)
+    counties = sorted({b["county_fips"] for b in base if b["postal_code"] == st}) or sorted({b["county_fips"] for b in base})
+    dists = sorted({b["district"] for b in base if b.get("district") and b["postal_code"] == st}) or sorted({b["district"] for b in base if b.get("district")})
     c = rng.choice(counties) if spec["county"] == "known" else "977"
     d = (rng.choice(dists) if spec["district"] == "known" else "70") if district else None
     if spec.get("id") == MAL:
@@ -167,6 +168,23 @@ def worker(job):
             x["geographic_unit_fips"] = d0 + "_" + x["geographic_unit_fips"].split("_", 1)[1]
     else:
         x = extra_row(rng, case, spec)
+    if spec.get("settle") and case["unit_type"] == "precinct":
+        # the extra unit lands in a county in which every expected unit has reported (nothing outstanding in the group: its bounds are known exactly),
+        # and it is large and lopsided, so that counting it once, twice or not at all gives visibly different group numbers
+        c_x = x["geographic_unit_fips"].split("_")[0]
+        st_x = x["postal_code"]
+        mp_ = case["params"]["model_parameters"]
+        ids_c = {b["geographic_unit_fips"] for b in case["baseline"] if b["county_fips"] == c_x and b["postal_code"] == st_x}
+        case["feed"] = [f for f in case["feed"] if f["geographic_unit_fips"] not in ids_c]
+        for b in case["baseline"]:
+            if b["geographic_unit_fips"] in ids_c and b["baseline_turnout"] > 0:
+                case["feed"].append(gen.live_row(rng, b, 100))
+        if mp_.get("unit_blocklist"):
+            mp_["unit_blocklist"] = [u for u in mp_["unit_blocklist"] if u not in ids_c]
+        big = 2000 + rng.randint(0, 3000)
+        lean = rng.choice([0.03, 0.97])
+        x["results_dem"], x["results_gop"] = int(big * lean), big - int(big * lean)
+        x["results_turnout"] = big + rng.randint(0, 40)
     case1 = copy.deepcopy(case)
     case1["feed"].append(x)
     h0 = aggfam.harvest(case)
@@ -270,7 +288,12 @@ def jobs_for(chk):
          {"state": "known", "county": "new", "district": "new", "pev": 100}),
     ]
     reps = 1 if chk.tier == "quick" else 6
-    for _ in range(reps):
+    for r_ in range(reps):
+        # bootstrap, sub-state table, the extra unit in a county without outstanding vote (exact bounds) -- and the same with outstanding vote
+        for settle in (True, True, False):
+            jobs.append((rng.randint(0, 2**31), {"pi_method": "bootstrap", "avoid_boot_nan_key": False, "office": "S", "unit_type": "precinct", "threshold": 100,
+                                                 "aggregates": ["postal_code", "county_fips", "unit"], "handle_unreporting": "drop"},
+                         {"state": "known", "county": "known", "district": "known", "pev": 100, "settle": settle}))
         for kw, spec in fam:
             jobs.append((rng.randint(0, 2**31), kw, spec))
         for shape in ("ten", "atlarge"):
